@@ -25,6 +25,33 @@ type Property struct {
 
 var registry = map[string]*Property{}
 
+type overlayList []string
+
+func (o *overlayList) String() string     { return strings.Join(*o, ",") }
+func (o *overlayList) Set(s string) error { *o = append(*o, s); return nil }
+
+var overlayFlag overlayList
+
+// overlayMap reads the -overlay replacements.
+func overlayMap() (map[string][]byte, error) {
+	if len(overlayFlag) == 0 {
+		return nil, nil
+	}
+	out := map[string][]byte{}
+	for _, s := range overlayFlag {
+		i := strings.Index(s, "=")
+		if i < 0 {
+			return nil, fmt.Errorf("bad -overlay %q", s)
+		}
+		b, err := os.ReadFile(s[i+1:])
+		if err != nil {
+			return nil, err
+		}
+		out[s[:i]] = b
+	}
+	return out, nil
+}
+
 func register(p *Property) { registry[p.ID] = p }
 
 func main() {
@@ -35,8 +62,37 @@ func main() {
 	explain := flag.String("explain", "", "print a replay file")
 	list := flag.Bool("list", false, "list properties")
 	dump := flag.String("dump", "", "debug: pkg:Func[,mod] print SSA with value paths and edge conditions")
+	flag.Var(&overlayFlag, "overlay", "orig.go=replacement.go: analyse the tree with one file replaced (repeatable; used for rule-liveness mutants)")
 	gen := flag.Bool("gen-names", false, "print the reviewed-names table (names.json) for the current tree")
 	flag.Parse()
+	if os.Getenv("LC_LEAKS") != "" {
+		w, err := LoadWorld(*repo, modEngine, modAgg)
+		if err != nil {
+			fmt.Fprintln(os.Stderr, err)
+			os.Exit(2)
+		}
+		la := NewLockAn(w)
+		nAcq := 0
+		for _, f := range w.lunarFns {
+			if f.Origin() != nil {
+				continue
+			}
+			has := false
+			Instrs(f, func(in ssa.Instruction) {
+				if op, _ := lockOp(in); op == "Lock" || op == "RLock" {
+					has = true
+				}
+			})
+			if has {
+				nAcq++
+			}
+			for _, l := range la.Leaks(f) {
+				fmt.Printf("%s %s key=%s must=%v wrapper=%v\n", w.Pos(l.Ret.Pos()), fnID(f), l.Key, l.Must, la.sum[f] != nil && la.sum[f].acq[l.Key] != 0)
+			}
+		}
+		fmt.Printf("functions acquiring a lock: %d\n", nAcq)
+		return
+	}
 	if *gen {
 		frozenNames = map[string]fnNames{}
 		w, err := LoadWorld(*repo, modEngine, modAgg)
